@@ -584,6 +584,8 @@ func (it *Interp) step(i int, op *Op) {
 			fee := op.F
 			if fee == "seq" {
 				fee = fmt.Sprint(k % 7)
+			} else if fee == "seqbig" { // fees of everyday magnitude (1e18 .. 7e18): bytes in the middle of the 32-byte fee field are in use
+				fee = new(big.Int).Add(new(big.Int).Mul(big.NewInt(int64(1+k%7)), big.NewInt(1000000000000000000)), big.NewInt(int64(k))).String()
 			}
 			msg := mtypes.NewMsgSendToExternal(mtypes.ChainID(chain), sim.UserAddr(op.U%3), sim.ExtUser(k%4).Hex(),
 				sdk.NewCoin(d, sdkInt(bigOf(op.A))), sdk.NewCoin(d, sdkInt(bigOf(fee))))
@@ -1017,10 +1019,21 @@ func (it *Interp) step(i int, op *Op) {
 		}
 
 	case "xtopfee":
-		// macro: a few ordinary transfers of a token and one that offers a fee of 2^248 or more, then a batch is requested
-		top := new(big.Int).Lsh(big.NewInt(1), uint(248+op.R%2))
+		// macro: ordinary transfers of a token and one that offers a fee anywhere in the 256-bit width of the pool key
+		// (2^64 .. 2^250: every byte of the fee field decides an ordering somewhere), then a batch is requested; for odd R
+		// the pool holds more transfers than a batch takes, so the selection itself (not only its order) shows the ranking
+		exps := []uint{248, 249, 128, 130, 136, 160, 192, 224, 64, 100, 129, 250}
+		top := new(big.Int).Lsh(big.NewInt(1), exps[op.R%len(exps)])
 		top.Add(top, big.NewInt(int64(op.R)))
-		for _, o := range []Op{{K: "burst", U: op.U, C: op.C, D: op.D, N: 3, A: "100", F: "seq"}, {K: "send", U: op.U, C: op.C, D: op.D, A: "100", F: top.String(), R: op.R},
+		n := 3
+		if op.R%2 == 1 {
+			n = 101
+		}
+		mode := "seqbig"
+		if op.R < 2 {
+			mode = "seq"
+		}
+		for _, o := range []Op{{K: "burst", U: op.U, C: op.C, D: op.D, N: n, A: "100", F: mode}, {K: "send", U: op.U, C: op.C, D: op.D, A: "100", F: top.String(), R: op.R},
 			{K: "block", T: 5}, {K: "reqbatch", C: op.C, D: op.D}, {K: "block", T: 5}, {K: "block", T: 5}} {
 			if it.Failed() {
 				break
